@@ -359,6 +359,11 @@ class RequestHandler(BaseProtocol, Generic[_Request]):
         if self._keepalive_handle is not None:
             self._keepalive_handle.cancel()
 
+        if self._waiter is not None and not self._waiter.done():
+            # Idle connection: start() would wait for the next request for
+            # the whole timeout (for ever without one). Close it now.
+            self.close()
+
         # Wait for graceful handler completion
         if self._request_in_progress:
             # The future is only created when we are shutting
